@@ -543,6 +543,26 @@ func weakeningsOf(x cty.Value, full bool) []cty.Value {
 				}
 			}
 		}
+		// the same constraints stated in two steps, on one builder and by refining the refined
+		// value again, tight after loose and loose after tight: on a faithful builder these are the
+		// one-step values (and disappear in dedupRaw); every stated constraint is true of x
+		if !isInf(x) && len(los) > 1 && len(his) > 1 {
+			xm, xp := los[1].v, his[1].v
+			two := func(first, second func(b *cty.RefinementBuilder) *cty.RefinementBuilder) {
+				add(func() cty.Value { return second(first(cty.UnknownVal(ty).Refine())).NewValue() })
+				add(func() cty.Value { return second(first(cty.UnknownVal(ty).Refine()).NewValue().Refine()).NewValue() })
+			}
+			loT := func(b *cty.RefinementBuilder) *cty.RefinementBuilder { return b.NumberRangeLowerBound(x, true) }
+			loL := func(b *cty.RefinementBuilder) *cty.RefinementBuilder { return b.NumberRangeLowerBound(xm, false) }
+			hiT := func(b *cty.RefinementBuilder) *cty.RefinementBuilder { return b.NumberRangeUpperBound(x, true) }
+			hiL := func(b *cty.RefinementBuilder) *cty.RefinementBuilder { return b.NumberRangeUpperBound(xp, false) }
+			two(loL, loT)
+			two(loT, loL)
+			two(hiL, hiT)
+			two(hiT, hiL)
+			two(loL, hiT)
+			two(hiL, loT)
+		}
 	case ty == cty.String:
 		s := x.AsString()
 		seen := map[string]bool{"": true}
@@ -633,6 +653,21 @@ func weakeningsOf(x cty.Value, full bool) []cty.Value {
 				hi := hi
 				add(func() cty.Value { return base().CollectionLengthUpperBound(hi).NewValue() })
 			}
+		}
+		// two-step statements of the same constraints (see the number case)
+		add(func() cty.Value {
+			return cty.UnknownVal(ty).Refine().CollectionLengthUpperBound(n + 1).NewValue().Refine().CollectionLengthUpperBound(n).NewValue()
+		})
+		add(func() cty.Value {
+			return cty.UnknownVal(ty).Refine().CollectionLengthUpperBound(n).CollectionLengthUpperBound(n + 1).NewValue()
+		})
+		if n > 0 {
+			add(func() cty.Value {
+				return cty.UnknownVal(ty).Refine().CollectionLengthLowerBound(n - 1).NewValue().Refine().CollectionLengthLowerBound(n).NewValue()
+			})
+			add(func() cty.Value {
+				return cty.UnknownVal(ty).Refine().CollectionLengthLowerBound(n).CollectionLengthLowerBound(n - 1).NewValue()
+			})
 		}
 	}
 	return dedupRaw(out)
